@@ -2,6 +2,7 @@ package rules
 
 import (
 	"fmt"
+	"go/types"
 	"strings"
 
 	"golang.org/x/tools/go/ssa"
@@ -19,7 +20,7 @@ func init() {
 			"(d) every value stored into the executionConfig field outside the constructor is either derived from a load of that field (keep current) or is the fetched value on the edge where the fetch error is nil and the value is non-nil; the store is under the write lock; " +
 			"(e) New stores a non-nil configurator before the first fetch and every call through the field is guarded by a nil test or follows (e); (f) the configurator is called with the service's fallback fee recipient and gas limit; " +
 			"(g) every blocking select/receive in the package has a context-done or timer arm. " +
-			"Added with the third seeding round: (j) the v1/v2 resolvers write nothing reached from the configuration object; (k) no errors.Wrap of an error that is nil on every path to it (a rejection reported as success). Added with the fourth seeding round: (l) semaphore probes give the permit back; (m) wait groups balance; (n) no TryLock/TryRLock. NOT decided: that the HTTP fetch returns (library timeout), RWMutex fairness, the interleavings themselves; but pairing + no re-entrancy + nothing slow under the lock mean no schedule can leave the lock held.",
+			"Added with the third seeding round: (j) the v1/v2 resolvers write nothing reached from the configuration object; (k) no errors.Wrap of an error that is nil on every path to it (a rejection reported as success). Added with the fourth seeding round: (l) semaphore probes give the permit back; (m) wait groups balance; (n) no TryLock/TryRLock. Added with the fifth seeding round: (o) a method of the account parameter of a resolver is called only behind account != nil. NOT decided: that the HTTP fetch returns (library timeout), RWMutex fairness, the interleavings themselves; but pairing + no re-entrancy + nothing slow under the lock mean no schedule can leave the lock held.",
 		Technique: "lock-set dataflow (pairing, re-entrancy via call graph), call-graph reachability of network calls under the lock, provenance of stored configuration by phi leaves and error-edge guards",
 		Rule:      "obligations are enumerated per function of the package (pairing, re-entrancy), per call site under the configuration lock (c), per leaf value of each store to the field (d), per invoke through the field (e,f), per select (g); non-trivial = the function contains a lock operation / the site exists",
 	})
@@ -272,6 +273,30 @@ func runC12(p *core.Prog, r *core.Report, tier string) {
 	if nTry == 0 {
 		r.Hold("C12.n", "no-non-blocking-lock", "", "no TryLock/TryRLock on a mutex in the package: readers wait for the configuration")
 	}
+
+	// (o) lookups without an account return: the auction, forwarded registrations and unblinding resolve settings with a
+	// nil account, so in the resolvers a method is called on an account parameter only behind `account != nil`
+	nAccInv := 0
+	for _, rel := range []string{"services/blockrelay/v1", "services/blockrelay/v2"} {
+		for _, f := range p.FuncsIn(rel) {
+			for _, prm := range f.Params {
+				if _, isIface := prm.Type().Underlying().(*types.Interface); !isIface || !strings.HasSuffix(prm.Type().String(), ".Account") {
+					continue
+				}
+				core.EachInstr(f, func(in ssa.Instruction) {
+					c, ok := in.(*ssa.Call)
+					if !ok || !c.Call.IsInvoke() || c.Call.Value != ssa.Value(prm) {
+						return
+					}
+					nAccInv++
+					w := core.Unguarded(ds, f, nil, func(x ssa.Instruction) bool { return x == in }, core.NonNilGuard(ds, prm))
+					r.Check(w == nil, "C12.o", fmt.Sprintf("%s|account-method-behind-nil-test#%d", core.FnKey(f), nAccInv), p.Pos(c.Pos()), "the account's method is called only when an account was supplied",
+						"a method is called on the account parameter without `account != nil` having been established: settings are also resolved without an account (auction, forwarded registrations, unblinding), and that request would panic instead of returning", p.WitnessText(w)...)
+				})
+			}
+		}
+	}
+	r.Floor("C12.o method calls on account parameters in the resolvers", nAccInv, 1)
 
 	// (j) using the configuration does not alter it: the resolvers write nothing that is reached from the
 	// configuration object (the last good configuration stays as it was obtained)
